@@ -251,6 +251,10 @@ type World struct {
 	cmu     sync.Mutex
 	crashed []string
 	LogHook *LogCapture
+	// RecordAPI keeps what the node's own API returned to the workload (for the key canary).
+	RecordAPI bool
+	APILog    [][]byte
+	apiMu     sync.Mutex
 }
 
 // New creates an empty world for a run.
